@@ -45,6 +45,8 @@ pub(crate) struct GrammarBuilder {
     start_rule_name: String,
     /// Names of the rules given in the grammar (helper rules excluded).
     rule_names: BTreeSet<String>,
+    /// The separator each one-or-more helper rule was created with.
+    helper_separators: BTreeMap<String, Option<String>>,
 }
 
 impl GrammarBuilder {
@@ -60,6 +62,7 @@ impl GrammarBuilder {
             next_prod_idx: ProdIndex(0),
             start_rule_name: "".into(),
             rule_names: BTreeSet::new(),
+            helper_separators: BTreeMap::new(),
         }
     }
 
@@ -525,6 +528,35 @@ impl GrammarBuilder {
                         Some(self.file.clone()),
                         ref_type.span
                     );
+                }
+            }
+
+            // The helper rule of a repetition is shared by all uses of the
+            // same symbol and is named without the separator, so all those
+            // uses must agree on the separator.
+            if matches!(
+                op.rep_op,
+                RepetitionOperatorOp::ZeroOrMore | RepetitionOperatorOp::OneOrMore
+            ) {
+                let one_name = nt_name(&ref_type, &RepetitionOperatorOp::OneOrMore);
+                let separator = modifier.map(|m| m.as_ref().to_string());
+                match self.helper_separators.get(one_name.as_ref()) {
+                    Some(existing) if *existing != separator => {
+                        return err!(
+                            format!(
+                                "Repetitions of '{}' are used with different separators. \
+                                 This is not supported.",
+                                &ref_type
+                            ),
+                            Some(self.file.clone()),
+                            ref_type.span
+                        );
+                    }
+                    Some(_) => (),
+                    None => {
+                        self.helper_separators
+                            .insert(one_name.as_ref().to_string(), separator);
+                    }
                 }
             }
 
